@@ -1,6 +1,6 @@
 use std::borrow::Cow;
 use std::cell::{Cell, Ref, RefCell};
-use std::collections::HashMap;
+use std::collections::{HashMap, HashSet};
 use std::path::{Path, PathBuf};
 use std::rc::Rc;
 use std::sync::Arc;
@@ -34,6 +34,9 @@ pub(crate) struct AssocFileData {
     source_name: Arc<PathBuf>,
     exports: RefCell<Option<Export>>,
     files: FileManager,
+    /// The compiled code of a class is labelled with the class name, so the classes of one
+    /// module share a single namespace whatever scope they are declared in.
+    class_names: RefCell<HashSet<String>>,
 }
 
 #[derive(Debug, PartialEq, Clone)]
@@ -76,7 +79,13 @@ impl AssocFileData {
             source_name: Arc::new(destination.with_extension("ms").to_path_buf()),
             files: files_loaded,
             exports: RefCell::default(),
+            class_names: RefCell::default(),
         }
+    }
+
+    /// Returns `false` if this module already has a class with this name.
+    pub fn register_class_name(&self, name: &str) -> bool {
+        self.class_names.borrow_mut().insert(name.to_owned())
     }
 
     pub fn file_manager(&self) -> &FileManager {
